@@ -95,7 +95,7 @@ Definition step (s : pst) (a : lbl) : option pst :=
       match p, o with
       | W, (Get _ | Head _) =>
           if in_pool s b0 then Some (mk s (ks s) (remove_nat b0 (free s)) (mem s) i (GHave b0) (lin s)) else None
-      | W, (Put _ _ | PutShort _ _ _) =>
+      | W, (Put _ _ | PutShort _ _ _ | PutCancel _ _) =>
           if in_pool s b0 then Some (mk s (ks s) (remove_nat b0 (free s)) (mem s) i (PHave b0) (lin s)) else None
       | GHave b, (Get h | Head h) =>
           let r := handle_get H (ks s) h in
@@ -120,6 +120,11 @@ Definition step (s : pst) (a : lbl) : option pst :=
           if lenient s then Some (mk s (ks s) (free s) m' i (PRead b) (lin s))
           else let r := handle_put_short (ks s) n in
                Some (mk s (ks s) (if twice s then b :: free s else free s) m' i (Resp b r) ((i, o, r) :: lin s))
+      | PHave b, PutCancel h d =>
+          (* the body arrives, the client goes away during PutBlock: the sequential handler's answer (an
+             error, volumes unchanged); the volume work of an abandoned request is one step here too *)
+          let r := handle_put_short (ks s) (clen d) in
+          Some (mk s (ks s) (free s) (upd_mem (mem s) b d) i (Resp b r) ((i, o, r) :: lin s))
       | PRead b, PutShort h d n =>
           (* VARIANT lenient only *)
           if lenient s
